@@ -654,6 +654,10 @@ func CompoundValue(r *core.Rand, o Opts) *rtcp.CompoundPacket {
 	for i := r.Intn(5); i > 0; i-- {
 		c = append(c, Packet(r, AnyKind(r), so))
 	}
+	if r.Chance(1, 8) {
+		// the same packet (one pointer) twice in the list: a caller may well send a packet twice
+		c = append(c, c[r.Intn(len(c))])
+	}
 	return &c
 }
 
@@ -666,6 +670,9 @@ func List(r *core.Rand, max int, o Opts) []rtcp.Packet {
 	out := make([]rtcp.Packet, n)
 	for i := range out {
 		out[i] = Packet(r, AnyKind(r), so)
+	}
+	if n >= 2 && r.Chance(1, 6) {
+		out[r.Intn(n)] = out[r.Intn(n)] // one pointer at two positions
 	}
 	return out
 }
